@@ -135,6 +135,19 @@ Proof.
     + apply (X_some (bs "x"%string) [bs "foo"]%string); [reflexivity|discriminate|reflexivity].
   - vm_compute. reflexivity.
 Qed.
+(* the executable specifications of the locale suite that judge the implementation in the correspondence run
+   (three-zone verdict on parsing, round trip, histories against the abstract machine, LanguageIdentifier vs Locale,
+   the part before the first singleton, into_parts / from_parts, API-built locales, matches, cmp / ==) are
+   corollaries of the proved theorems: the MODEL's answer passes them on every input.  Not covered: the
+   `loc_canonicalize` verdict (needs "printed text is never in the Outside zone") and the metamorphic-pair
+   operations `loc_meta` / `li_meta`, whose verdict is only meaningful on pairs the generator constructs *)
+From UL Require Oracle OracleSound.
+Theorem C03_oracle_spec_sound : forall op args r,
+  Oracle.oracle_model_locale op args = Some r ->
+  beqb op (bs "loc_canonicalize"%string) = false -> beqb op (bs "loc_meta"%string) = false -> beqb op (bs "li_meta"%string) = false ->
+  OracleSound.passes (Oracle.oracle_spec_locale op args r).
+Proof. exact OracleSound.locale_group_sound. Qed.
+
 Print Assumptions C03_accepts_every_wellformed.
 Print Assumptions C03_grammar_in_must_accept.
 Print Assumptions C03_value_holds_every_subtag.
@@ -152,3 +165,4 @@ Print Assumptions C03_complete.
 Print Assumptions C03_rejects.
 Print Assumptions C03_total.
 Print Assumptions C03_id_prefix.
+Print Assumptions C03_oracle_spec_sound.
